@@ -371,114 +371,5 @@ theorem payload_same2 (en : Endian) (mode : PayloadMode) (hm : (match mode with 
     · simp only [hl, ↓reduceIte]; exact sf_ok _ _ _ ⟨hrel _, rfl⟩
   | undelimited => simp at hm
 
-theorem items_same2 (en : Endian) : ∀ (is : Items), decWfItems2 is = true → ∀ (bs : Bytes), bs.length < 2 ^ 31 →
-    ∀ (sj sr : DState), RelC sj sr →
-    SameFields RelP (Java.decItems en is bs sj) (Pdlv.decItems { e := en, mode := .ideal } is bs sr)
-  | .nil, _, bs, _, sj, sr, hr => by
-    simp only [Java.decItems, Pdlv.decItems]
-    exact sf_ok _ _ _ ⟨hr, rfl⟩
-  | .cons i r, hw, bs, hb, sj, sr, hr => by
-    -- one field, then the rest on a remainder that is no longer than the input
-    have step : SameFields RelP (Java.decItem en i bs sj) (Pdlv.decItem { e := en, mode := .ideal } i bs sr) ∧
-        decWfItems2 r = true := by
-      cases i with
-      | chunk fs =>
-        simp only [decWfItems2, Bool.and_eq_true, Bool.or_eq_true, beq_iff_eq] at hw
-        obtain ⟨⟨hcw, hW⟩, hwr⟩ := hw
-        have hW' : chunkBits fs = 8 ∨ chunkBits fs = 16 ∨ chunkBits fs = 32 := by
-          rcases hW with (h | h) | h
-          · exact Or.inl h
-          · exact Or.inr (Or.inl h)
-          · exact Or.inr (Or.inr h)
-        refine ⟨?_, hwr⟩
-        have := chunk_same2 en fs hcw hW' bs sj sr hr
-        simpa [Java.decItem, Pdlv.decItem] using this
-      | payload mode =>
-        simp only [decWfItems2, Bool.and_eq_true] at hw
-        exact ⟨payload_same2 en mode hw.1 bs hb sj sr hr, hw.2⟩
-      | array id elem ew shape pad =>
-        cases elem with
-        | scalar w =>
-          cases ew with
-          | static eb =>
-            cases pad with
-            | none =>
-              simp only [decWfItems2, Bool.and_eq_true, Bool.or_eq_true, beq_iff_eq] at hw
-              obtain ⟨⟨hww, heb⟩, hwr⟩ := hw
-              subst heb
-              have hw4 : w = 8 ∨ w = 16 ∨ w = 32 ∨ w = 64 := by
-                rcases hww with ((h | h) | h) | h
-                · exact Or.inl h
-                · exact Or.inr (Or.inl h)
-                · exact Or.inr (Or.inr (Or.inl h))
-                · exact Or.inr (Or.inr (Or.inr h))
-              exact ⟨array_same2 en id w shape hw4 bs hb sj sr hr, hwr⟩
-            | some p => simp [decWfItems2] at hw
-          | unknown => simp [decWfItems2] at hw
-          | dynamic => simp [decWfItems2] at hw
-        | enumTy a b => simp [decWfItems2] at hw
-        | custom a b => simp [decWfItems2] at hw
-        | struct a b => simp [decWfItems2] at hw
-      | typedef a b c => simp [decWfItems2] at hw
-      | optional a b c d => simp [decWfItems2] at hw
-    obtain ⟨hitem, hwr⟩ := step
-    simp only [Java.decItems, Pdlv.decItems]
-    constructor
-    · intro a ha
-      obtain ⟨x, h1, h2⟩ := bind_ok _ _ _ ha
-      obtain ⟨y, h3, h4, h5⟩ := hitem.1 x h1
-      have hcons := decItem_consumes { e := en, mode := .ideal } i bs sr y.1 y.2 h3
-      obtain ⟨b, h6, h7⟩ := (items_same2 en r hwr x.2 (by rw [h5]; omega) x.1 y.1 h4).1 a h2
-      exact ⟨b, by rw [h3]; simp only [Outcome.bind]; rw [← h5]; exact h6, h7⟩
-    · intro b hb'
-      obtain ⟨y, h1, h2⟩ := bind_ok _ _ _ hb'
-      obtain ⟨x, h3, h4, h5⟩ := hitem.2 y h1
-      have hcons := decItem_consumes { e := en, mode := .ideal } i bs sr y.1 y.2 h1
-      obtain ⟨a, h6, h7⟩ := (items_same2 en r hwr x.2 (by rw [h5]; omega) x.1 y.1 h4).2 b (by rw [h5]; exact h2)
-      exact ⟨a, by rw [h3]; simp only [Outcome.bind]; exact h6, h7⟩
-
-/-- `fromBytes` on the extended class is the reference `decode_full` -/
-theorem decode_same2 (c : Cfg) (nm : String) (items : Items) (hw : decWfItems2 items = true) (bs : Bytes)
-    (hb : bs.length < 2 ^ 31) (v : Value) :
-    Java.decodeFull c (.root nm items) bs = .ok v ↔
-      Pdlv.decodeFull { e := c.e, mode := .ideal } (.root nm items) bs = .ok v := by
-  have hs := items_same2 c.e items hw bs hb DState.empty DState.empty ⟨rfl, rfl, fun _ => rfl, fun _ => rfl⟩
-  have hval : ∀ (sa sb : DState), RelC sa sb →
-      Value.obj (sa.fields ++ (match sa.payload with | some p => [("payload", Value.ofBytes p)] | none => [])) =
-      Value.obj (sb.fields ++ (match sb.payload with | some p => [("payload", Value.ofBytes p)] | none => [])) := by
-    intro sa sb hr
-    rw [hr.1, hr.2.1]
-  simp only [Java.decodeFull, Pdlv.decodeFull, Pdlv.decBody]
-  constructor
-  · intro h
-    obtain ⟨⟨sa, ra⟩, h1, h2⟩ := bind_ok _ _ _ h
-    obtain ⟨⟨sb, rb⟩, h3, h4, h5⟩ := hs.1 _ h1
-    simp only at h4 h5 h2
-    subst h5
-    by_cases hre : ra.isEmpty = true
-    · simp only [hre, ↓reduceIte, Outcome.ok.injEq] at h2
-      simp only [h3, Outcome.bind, hre, ↓reduceIte, Outcome.ok.injEq]
-      rw [← h2]
-      have := hval sa sb h4
-      cases hp : sb.payload <;> cases hq : sa.payload <;> simp_all
-    · simp only [hre, Bool.false_eq_true, ↓reduceIte] at h2
-      cases h2
-  · intro h
-    obtain ⟨⟨v1, r1⟩, h1, h2⟩ := bind_ok _ _ _ h
-    obtain ⟨⟨sb, rb⟩, h3, h4⟩ := bind_ok _ _ _ h1
-    obtain ⟨⟨sa, ra⟩, h5, h6, h7⟩ := hs.2 _ h3
-    simp only at h6 h7 h2 h4
-    simp only [Outcome.ok.injEq, Prod.mk.injEq] at h4
-    subst h7
-    by_cases hre : r1.isEmpty = true
-    · simp only [hre, ↓reduceIte, Outcome.ok.injEq] at h2
-      have hre' : ra.isEmpty = true := by rw [← h4.2] at hre; exact hre
-      simp only [h5, Outcome.bind, hre', ↓reduceIte, Outcome.ok.injEq]
-      rw [← h2, ← h4.1]
-      have := hval sa sb h6
-      cases hp : sb.payload <;> cases hq : sa.payload <;> simp_all
-    · simp only [hre, Bool.false_eq_true, ↓reduceIte] at h2
-      cases h2
-
 end Java
 end Pdlv
